@@ -155,7 +155,14 @@ def run(ctx):
                     'new waiter in front of the observed head; Wait() blocks exactly when it was registered; an '
                     'awaiter that always suspends resumes the coroutine itself when it could not register; the '
                     'sticky / on-executor awaiters resume by submitting to the executor', minimum=3)
+    rwm = ctx.rule('R-WGMODE', 'WaitGroup: Consume takes the cores from the futures, registers the releasing callback and '
+                   'releases already complete inputs; Attach does none of the three; every public overload selects the '
+                   'mode its name says', minimum=12)
+    rwr = ctx.rule('R-WGRESET', 'WaitGroup::Reset re-arms the event and sets the counter', minimum=1)
     for cfg, fb in sorted(fbs.items()):
+        from rules import lib_wg
+        if (ctx.guard(lambda: lib_wg.check_wait_group(ctx, fb, rwm, rwr)) or 0) < 10 and cfg == 'K20':
+            ctx.guard(lambda: ctx.broken('R-WGMODE: WaitGroup Consume / Attach forms not instantiated in %s' % cfg))
         ctx.guard(lambda: lib_order.check_cas_fresh(ctx, fb, rcf, lambda f: 'OneShotEvent' in f.qn or 'one_shot_event' in f.file))
         ctx.guard(lambda: lib_shape.check(ctx, fb, rsh, lambda qn: 'SetImpl' in qn and 'BaseCore' not in qn, 1))
         ctx.guard(lambda: lib_order.check(ctx, fb, cfg, [HEAD, COUNT], rw, ro, rc))
